@@ -465,9 +465,9 @@ class MetaDataReplace(MosFile):
             else:
                 target, target_index = find_child(parent=ro.base_tag, child_tag=source.tag)
             if target is None:
-                insert_node(parent=ro.base_tag, node=source, index=len(ro.base_tag))
+                insert_node(parent=ro.base_tag, node=copy.deepcopy(source), index=len(ro.base_tag))
             else:
-                replace_node(parent=ro.base_tag, old_node=target, new_node=source, index=target_index)
+                replace_node(parent=ro.base_tag, old_node=target, new_node=copy.deepcopy(source), index=target_index)
         return ro
 
     def inspect(self):
@@ -518,7 +518,7 @@ class StoryAppend(MosFile):
         Merge into the :class:`RunningOrder` object provided.
         """
         for story in self.stories:
-            append_node(ro.base_tag, story.xml)
+            append_node(ro.base_tag, copy.deepcopy(story.xml))
         return ro
 
     def inspect(self):
@@ -712,7 +712,7 @@ class StoryInsert(MosFile):
                 logger.warning(msg)
                 warnings.warn(msg, DuplicateStoryWarning)
                 continue
-            insert_node(parent=ro.base_tag, node=new_story.xml, index=story_index)
+            insert_node(parent=ro.base_tag, node=copy.deepcopy(new_story.xml), index=story_index)
             story_index += 1
         return ro
 
@@ -796,7 +796,7 @@ class ItemInsert(MosFile):
                     f"{self.__class__.__name__} error in {self.message_id} - target item not found"
                 )
         for i, item in enumerate(self.items, start=item_index):
-            insert_node(parent=story, node=item.xml, index=i)
+            insert_node(parent=story, node=copy.deepcopy(item.xml), index=i)
         return ro
 
     def inspect(self):
@@ -1062,7 +1062,7 @@ class StoryReplace(MosFile):
             )
         remove_node(parent=ro.base_tag, node=story)
         for i, new_story in enumerate(self.stories, start=story_index):
-            insert_node(parent=ro.base_tag, node=new_story.xml, index=i)
+            insert_node(parent=ro.base_tag, node=copy.deepcopy(new_story.xml), index=i)
         return ro
 
     def inspect(self):
@@ -1141,7 +1141,7 @@ class ItemReplace(MosFile):
 
         remove_node(parent=story, node=item)
         for i, item in enumerate(self.items, start=item_index):
-            insert_node(parent=story, node=item.xml, index=i)
+            insert_node(parent=story, node=copy.deepcopy(item.xml), index=i)
         return ro
 
     def inspect(self):
@@ -1270,7 +1270,7 @@ class RunningOrderEnd(MosFile):
         ``roDelete`` message to the ``roCreate`` tag in the running order.
         """
         mosromgrmeta = SubElement(ro.xml, 'mosromgrmeta')
-        mosromgrmeta.append(self.base_tag)
+        mosromgrmeta.append(copy.deepcopy(self.base_tag))
         return ro
 
     def inspect(self):
@@ -1383,7 +1383,7 @@ class EAStoryReplace(ElementAction):
             )
         remove_node(parent=ro.base_tag, node=story)
         for i, new_story in enumerate(self.stories, start=story_index):
-            insert_node(parent=ro.base_tag, node=new_story.xml, index=i)
+            insert_node(parent=ro.base_tag, node=copy.deepcopy(new_story.xml), index=i)
         return ro
 
     def inspect(self):
@@ -1454,7 +1454,7 @@ class EAItemReplace(ElementAction):
             )
         remove_node(parent=story, node=item)
         for i, new_item in enumerate(self.items, start=item_index):
-            insert_node(parent=story, node=new_item.xml, index=i)
+            insert_node(parent=story, node=copy.deepcopy(new_item.xml), index=i)
         return ro
 
     def inspect(self):
@@ -1646,7 +1646,7 @@ class EAStoryInsert(ElementAction):
                 logger.warning(msg)
                 warnings.warn(msg, DuplicateStoryWarning)
             else:
-                insert_node(parent=ro.base_tag, node=new_story.xml, index=story_index)
+                insert_node(parent=ro.base_tag, node=copy.deepcopy(new_story.xml), index=story_index)
                 story_index += 1
         return ro
 
@@ -1723,7 +1723,7 @@ class EAItemInsert(ElementAction):
                     f"{self.__class__.__name__} error in {self.message_id} - item not found"
                 )
         for i, new_item in enumerate(self.items, start=item_index):
-            insert_node(parent=story, node=new_item.xml, index=i)
+            insert_node(parent=story, node=copy.deepcopy(new_item.xml), index=i)
         return ro
 
     def inspect(self):
